@@ -24,7 +24,8 @@ THEOREMS = ["C06_decode_encode", "C06_encode_distinct", "C06_encode_injective", 
             "C06_encode_swap_token", "C06_tokens_byte", "C06_batch_rows", "C06_batch_rows_inv",
             "C06_batch_raises", "C06_batch_defined", "C06_mask_selects_encoding", "C06_pad_is_empty_token",
             "C06_mask_essential", "C06_vocabulary_tie", "C06_reachable_encodable",
-            "C06_reachable_encodable_standard"]
+            "C06_reachable_encodable_standard",
+            "C06_source_encode_eq", "C06_source_decode_encode", "C06_source_encode_injective", "C06_source_encode_swap", "C06_source_tokens_byte", "C06_source_decode_ok_iff", "C06_source_round_trip"]
 MODEL_TARGETS = ["model/Tak.vo", "model/Harness.vo", "model/Lit.vo", "model/Encoding.vo"]
 TRUSTED_BASE = [
     "CPython list indexing incl. negative indices (py_index), torch.tensor/zeros/slice assignment as list operations, "
@@ -626,3 +627,25 @@ def replay(run, rp):
                 "model_view": cs.model_view(cs.terms[0])}
     return {"violates": False, "note": "replay file carries no concrete input (a proof / tie obligation broke); "
                                        "re-run ./check C06"}
+
+
+# ---- translator tie (T): the C06_source_* theorems quantify over gen/EncodingGen.v (encode/decode regenerated from the
+# source by harness/py2coq.py against model/PySem.v); t06's correspondence validates PySem.v and the translation scheme.
+def pregen(run):
+    from . import t06
+    return t06.pregen(run)
+
+
+from . import t06 as _t06  # noqa: E402
+
+MODEL_TARGETS = sorted(set(list(MODEL_TARGETS) + list(_t06.MODEL_TARGETS)))
+TRUSTED_BASE = list(TRUSTED_BASE) + [
+    "translator harness/py2coq.py and model/PySem.v (Python list indexing incl. negative wrap, dict lookup, unpacking; a tensor "
+    "is the list of its entries), validated against CPython and the implementation on every run",
+]
+_c06_correspondence = correspondence
+
+
+def correspondence(run):
+    _c06_correspondence(run)
+    _t06.correspondence(run)
